@@ -75,6 +75,11 @@ def fam_c10(R, n):
             s_ = '#[logos(skip(%s, priority = 3, ignore(case)))]' % rust_str(p)
             b = '#[regex(%s, priority = 2)] B,' % rust_str('(?i:%s)' % p)
             out.append(dict(family='c10-skip', src=enum([s_], [b]), meta=dict(pattern=p.encode('utf-8').hex(), icase=True, unicode=True, pair=(0, 1))))
+    # patterns with look-around assertions: ignore(case) must not touch the assertion
+    for p in ['ab$', 'k(?-u:\\b)', 'a(?m:$)\\n?', 'sk(?-u:\\B)x', 'ask(?-u:\\b{end})', 'é(?mR:$)']:
+        a = '#[regex(%s, priority = 3, ignore(case))] A,' % rust_str(p)
+        b = '#[regex(%s, priority = 2)] B,' % rust_str('(?i:%s)' % p)
+        out.append(dict(family='c10-look', src=enum([], [a, b]), meta=dict(icase=True, unicode=True, pair=(0, 1))))
     return out
 
 
@@ -107,6 +112,14 @@ def fam_c11(R, n):
         a = '#[regex(%s, priority = 3)] A,' % rust_str(pat)
         b = '#[regex(%s, priority = 2)] B,' % rust_str(ref)
         out.append(dict(family='c11-sub', src=enum(attrs, [a, b]), meta=dict(pair=(0, 1), pattern=pat, reference=ref)))
+    # subpatterns made of (or containing) look-around assertions
+    for (sub, shape) in [('$', 'ab(?&s0)'), ('(?-u:\\b)', '[a-z]+(?&s0)'), ('(?m:$)', 'a(?&s0)\\n?'), ('x(?-u:\\B)', '(?&s0)y'), ('a|b$', 'c(?&s0)'),
+                         ('(?-u:\\b{end})|-', '[a-z]+(?&s0)')]:
+        pat = shape
+        ref = shape.replace('(?&s0)', '(?u:%s)' % sub)
+        attrs = ['#[logos(subpattern s0 = %s)]' % rust_str(sub)]
+        out.append(dict(family='c11-look', src=enum(attrs, ['#[regex(%s, priority = 3)] A,' % rust_str(pat), '#[regex(%s, priority = 2)] B,' % rust_str(ref)]),
+                        meta=dict(pair=(0, 1), pattern=pat, reference=ref)))
     # byte-string subpatterns keep their own (non-Unicode) mode
     for (sub, shape) in [(b'\\xff+', '(?&s0)a'), (b'[\\x80-\\xbf]', 'a(?&s0)'), (b'.', '(?&s0)x')]:
         pat = shape
